@@ -4,7 +4,7 @@
    the surface syntax of an abstract program under a style number, and
    Meaning.meaning what the program denotes, computed without gmars. *)
 From GM Require Import Base Text Token Lexer Scanner ExprSpec ExprEval Parser Compile Sim Prog Meaning Render AsmSpec
-     C03Proof C03Lexer C06Proof C09Proof C09GenCompile C09GenLex C03Parse C03Compile C03Labels.
+     C03Proof C03Lexer C06Proof C09Proof C09GenCompile C09GenLex C03Equ C03Parse C03Compile C03Labels.
 From Coq Require Import Lia.
 Open Scope Z_scope.
 
@@ -77,6 +77,19 @@ Proof.
   - intros k v H. rewrite expand_pass_tokenwise. cbn [expand_all expand_tok t_typ t_val]. rewrite H. rewrite app_nil_r. reflexivity.
 Qed.
 Print Assumptions C03_equ_textual_partial.
+
+(* ... and to any depth, forward uses included: the compiler expands an expression with the table of resolved values
+   that expandExpressions has built (EQU values with the EQU names inside them already substituted, whatever the
+   order of the definitions).  What it arrives at is exactly what k passes arrive at that replace every EQU name by
+   its text as written and every label by its offset (C03Equ.Pk: expand_pass with the raw definitions, k times),
+   whenever those passes leave no name - the reference meaning's way of reading a program *)
+Theorem C03_equ_any_depth_partial :
+  forall raw res labels se m line k T R f,
+    expand_expressions raw (build_graph raw) = Some (Some res) ->
+    Pk raw labels se m line k T = Some R -> textfree R ->
+    expand_expression (S (S (S f))) m (mkC res labels se) line T = Some (Some R).
+Proof. exact equ_textual. Qed.
+Print Assumptions C03_equ_any_depth_partial.
 
 (* mnemonics, modifiers and pseudo-ops are recognised in any letter case *)
 Theorem C03_letter_case_partial :
